@@ -87,7 +87,9 @@ class Prop:
         return {"prop": ID, "seed": seed,
                 "config": {"ncand": ncand, "listen": listen, "proto_only": proto_only,
                            # where the deferring traits and __prefix__ are declared
-                           "child_cls": c.choice(["Child", "Child", "ChildSub", "ChildMixed"])},
+                           "child_cls": c.choice(["Child", "Child", "ChildSub", "ChildMixed"]),
+                           # delegates that all compare equal (distinct objects)
+                           "eq_targets": c.random() < 0.3},
                 "ops": ops}
 
     # ------------------------------------------------------------------ model
@@ -132,6 +134,8 @@ class Prop:
         cfg = trace["config"]
         ncand = cfg["ncand"]
         m = self.mk_model(ncand)
+        if cfg.get("eq_targets"):
+            from ..zoo11 import EqTarget as Target      # noqa: F811 - value-object delegates
         cands = [Target(uid=i) for i in range(ncand)]
         mids = [Mid(uid=k, inner=cands[m.mids[k]["inner"]]) for k in range(2)]
         self.names = sorted(PROTO_NAMES) if cfg.get("proto_only") else sorted(DEFER)
